@@ -278,6 +278,21 @@ def run(ctx: Ctx, tier: str) -> Result:
             res.fail(Finding("C03.MERGE", idg.qname, idt, idg.loc(),
                              "%s.id (the key tracepoints are merged by) does not include %s which at_location compares: tracepoints on "
                              "different locations are merged into one and act at the wrong place" % (cname, missing or "any field")))
+    # a trigger's id is its location's id (the merge key is read from the trigger)
+    tid = p.cls(TRIG + ".Trigger").lookup("id")
+    need(tid is not None, "Trigger.id not found")
+    trets = [r for r in t.nodes_in(tid, ast.Return)]
+    tloc = p.cls(TRIG + ".Trigger").lookup("location")
+    okt = len(trets) == 1 and trets[0].value is not None and isinstance(trets[0].value, ast.Attribute) and trets[0].value.attr == "id"
+    if okt:
+        base = ctx.expand.expand(trets[0].value.value, tid)
+        st_ = [(sf, v) for sf, v, _ in t.field_stores(p.cls(TRIG + ".Trigger"), "__location")]
+        okt = len(base) == 1 and base[0].endswith("__location") and bool(st_) and all(sf.name == "__init__" and isinstance(v, ast.Name) and v.id == sf.params[1] for sf, v in st_)
+    if okt:
+        res.ok("C03.MERGE", {"Trigger.id": "the id of the location it was built with"})
+    else:
+        res.fail(Finding("C03.MERGE", tid.qname, trets[0] if trets else "<return self.location.id>", tid.loc(), "Trigger.id is not the id of the trigger's own location: "
+                         "tracepoints of different locations share a merge key and are merged into one"))
     cr = p.func("deep.grpc.convert_response")
     stores = [n for n in t.nodes_in(cr, ast.Assign) if isinstance(n.targets[0], ast.Subscript)]
     merges = [c for c in t.calls_in(cr) if any(x.name == "merge_actions" for x in t.resolve_call(c, cr).repo)]
